@@ -513,6 +513,11 @@ func worker(run *ev.Run, scs []*scenario, keys *wit.WitKeys, stores []string, di
 				run.Count("schedules_sql")
 			}
 			run.Count("schedules:" + j.sc.name + "/" + j.kind)
+			if j.bound < 0 {
+				run.Distinct("exhaustively_enumerated", j.sc.name+"/"+j.kind)
+			} else {
+				run.Distinct(fmt.Sprintf("preemption_bound_%d", j.bound), j.sc.name+"/"+j.kind)
+			}
 			what := j.sc.name + "/" + j.kind
 			detail := map[string]any{"scenario": j.sc.name, "store": j.kind, "schedule": e.Trace, "choices": e.Choices, "outcomes": rec.outs, "preemption_bound": j.bound}
 			if e.Stuck != "" {
